@@ -132,6 +132,27 @@ func runSign(d *big.Int, aux, msg []byte, route int, mode string) string {
 			return fmt.Sprintf("Sign with signer options #%d (%T) on a %d-byte message gives %x (err=%v), BIP-340 Sign = %x", oi, o, len(msg), sigO, err, want)
 		}
 	}
+	// the crypto.Signer route to the public key is the same key
+	if pub, ok := sk.Public().(*bitcoin.SchnorrPublicKey); !ok {
+		return "Public() does not return a *SchnorrPublicKey"
+	} else {
+		if mm := checkPubKey(pub, ref.BaseMul(d)); mm != "" {
+			return "the key returned by Public(): " + mm
+		}
+		if !pub.Verify(msg, want) || !pub.Equal(sk.PublicKey()) {
+			return "the key returned by Public() does not verify the signature / is not Equal to PublicKey()"
+		}
+	}
+	// a FAILED self-check in the key's history (the error path of the mandatory self-verification, entered here
+	// through the hook with a corrupted signature) leaves the key as it was
+	if hs, hi := bitcoin.VerifVerifySchnorrSelf, bitcoin.VerifSchnorrPrivInternals; hs != nil && hi != nil {
+		_, dInt, _ := hi(sk)
+		bad := append([]byte{}, want...)
+		bad[40] ^= 0x10
+		if hs(dInt, sk.PublicKey().Bytes(), m, bad) {
+			return "the self-check accepts a corrupted signature"
+		}
+	}
 	if sig2, err := sk.Sign(sc.New(), m, nil); err != nil || !bytes.Equal(sig2, want) {
 		return fmt.Sprintf("signing the same message again on the same key object gives %x (err=%v), BIP-340 Sign = %x", sig2, err, want)
 	}
